@@ -18,10 +18,21 @@ func TestSubset(t *testing.T) {
 		"badDefer", "badConstOverflow", "missing"} {
 		wl = append(wl, entry{file: "pkg/a.go", name: n})
 	}
+	wl = append(wl, entry{file: "pkg/a.go", name: "okPut", recv: "tab", state: true},
+		entry{file: "pkg/a.go", name: "badClosureWrites", recv: "tab", state: true},
+		entry{file: "pkg/a.go", name: "badLoopOnState", recv: "tab", state: true},
+		entry{file: "pkg/a.go", name: "okSeen", recv: "seen", state: true},
+		entry{file: "pkg/a.go", name: "badLenOfMap", recv: "seen", state: true},
+		entry{file: "pkg/a.go", name: "badRangeOverMap", recv: "seen", state: true},
+		entry{file: "pkg/a.go", name: "badUseOfFailedAssertion", recv: "seen", state: true})
 	out := translate("testdata", wl)
 	for _, e := range wl {
-		un := strings.Contains(out, "(* UNTRANSLATABLE "+e.name+":")
-		def := strings.Contains(out, "Definition "+e.name+" ")
+		label, gname := e.name, e.name
+		if e.recv != "" {
+			label, gname = e.recv+"."+e.name, e.recv+"_"+e.name
+		}
+		un := strings.Contains(out, "(* UNTRANSLATABLE "+label+":")
+		def := strings.Contains(out, "Definition "+gname+" ")
 		if strings.HasPrefix(e.name, "ok") && (un || !def) {
 			t.Errorf("%s should be translated", e.name)
 		}
@@ -36,6 +47,13 @@ func TestSubset(t *testing.T) {
 		"let a__1 := (a + 2%Z)%Z in",   // a shadowing variable gets a fresh name
 		"| Some q =>",                  // nil guard
 		"Prims.i64_quot a 1000%N",
+		"Prims.sort_Search (Prims.slen t_ents) (fun (i : Z) =>", // closure passed to sort.Search
+		"Prims.list_set t_ents i (ent_set_n",                    // element field write on the state
+		"tab_hits := t_hits",
+		"match (Prims.fi_Sys fi) with",                  // type assertion
+		"(Prims.set_mem (Stat.st_linkname st) v_names)", // _, ok := m[k]
+		"(Prims.set_add v_names name)",                  // m[k] = struct{}{}
+		"(Prims.set_del v_names name)",                  // delete(m, k)                                    // the state handed back
 	} {
 		if !strings.Contains(out, want) {
 			t.Errorf("output lacks %q", want)
